@@ -616,3 +616,86 @@ Lemma tone_zero_refuted :
 Proof.
   exists 8, neg_literal, [], (init (Qmake 440 1)), (Qmake 1 4). split; [reflexivity|]. vm_compute. reflexivity.
 Qed.
+
+(* ------------------------------------------------------------------ every sound is bounded *)
+Lemma delay_sum_intercalate sep b k :
+  delay_sum (intercalate sep (repeat b k)) = Z.of_nat k * delay_sum b + Z.of_nat (pred k) * delay_sum sep.
+Proof.
+  induction k as [|k IH]; [reflexivity|].
+  destruct k as [|k'].
+  - cbn [repeat intercalate pred]. lia.
+  - change (repeat b (S (S k'))) with (b :: repeat b (S k')).
+    change (intercalate sep (b :: repeat b (S k'))) with (b ++ sep ++ intercalate sep (repeat b (S k'))).
+    rewrite !delay_sum_app, IH. cbn [pred]. lia.
+Qed.
+
+Lemma delay_sum_beep_block pin t on : 0 <= on -> delay_sum (beep_block pin t on) = on.
+Proof.
+  intro H. unfold beep_block. rewrite !delay_sum_app, delay_sum_dl by exact H.
+  cbn [delay_sum delays flat_map zsum fold_right app]. lia.
+Qed.
+
+Lemma delay_sum_mute_block pin on : 0 <= on -> delay_sum (mute_block pin on) = on.
+Proof.
+  intro H. unfold mute_block. rewrite !delay_sum_app, delay_sum_dl by exact H.
+  cbn [delay_sum delays flat_map zsum fold_right app]. lia.
+Qed.
+
+(* beep, in general (any target, any count): exactly n*on + max(0, n-1)*off ms *)
+Lemma beep_duration_general : forall pin neg tbl st f on off times,
+  qle q0 on = true -> qle q0 off = true ->
+  let n := Z.max 0 (c_int times) in
+  delay_sum (snd (dstep pin neg tbl st (Beep f on off times))) = n * Qfloor on + Z.max 0 (n - 1) * Qfloor off.
+Proof.
+  intros pin neg tbl st f on off times Hon Hoff n.
+  destruct (c_ulong_nonneg neg on Hon) as [Eon Pon].
+  destruct (c_ulong_nonneg neg off Hoff) as [Eoff Poff].
+  cbn [dstep]. unfold beep. rewrite beep_loop_events, Eon, Eoff. fold n.
+  rewrite delay_sum_intercalate, delay_sum_dl by exact Poff.
+  assert (Hb : delay_sum (if qlt q0 (clamp0 (match f with Some q => q | None => b_last st end))
+                          then beep_block pin (tone_of (clamp0 (match f with Some q => q | None => b_last st end))) (Qfloor on)
+                          else mute_block pin (Qfloor on)) = Qfloor on).
+  { destruct (qlt q0 _); [apply delay_sum_beep_block|apply delay_sum_mute_block]; exact Pon. }
+  rewrite Hb. rewrite Z2Nat.id by lia.
+  replace (Z.of_nat (pred (Z.to_nat n))) with (Z.max 0 (n - 1)) by lia. reflexivity.
+Qed.
+
+Lemma emitter_beats_nonneg : forallb (fun kv => beats_nonneg (snd (snd kv))) emitter_melodies = true.
+Proof. vm_compute. reflexivity. Qed.
+
+(* C16_every_call_bounded *)
+Lemma every_call_bounded : forall pin neg st o,
+  nonneg_durations o = true ->
+  (inject_Z (delay_sum (snd (dstep pin neg emitter_melodies st o))) <= duration_bound emitter_melodies o)%Q.
+Proof.
+  intros pin neg st o H.
+  destruct o as [f [d|]| |f on off times|s e d steps|name tempo]; cbn [nonneg_durations duration_bound] in *.
+  - destruct (c_ulong_nonneg neg d H) as [Ed Pd].
+    destruct (qlt q0 f) eqn:E.
+    + destruct (play_tone_protocol pin neg emitter_melodies st f d) as [Hp _]. destruct (Hp E) as [_ H2].
+      rewrite H2. cbn [snd]. rewrite !delay_sum_app, Ed, delay_sum_dl by exact Pd.
+      cbn [delay_sum delays flat_map zsum fold_right app]. rewrite Z.add_0_l, Z.add_0_r. apply Qfloor_le.
+    + assert (E' : qle f q0 = true) by (rewrite qle_qlt, E; reflexivity).
+      destruct (play_tone_protocol pin neg emitter_melodies st f d) as [_ Hp]. destruct (Hp E') as [_ H2].
+      rewrite H2. cbn [snd]. rewrite !delay_sum_app, Ed, delay_sum_dl by exact Pd.
+      cbn [delay_sum delays flat_map zsum fold_right app]. rewrite Z.add_0_l. apply Qfloor_le.
+  - destruct (qlt q0 f) eqn:E.
+    + destruct (play_tone_protocol pin neg emitter_melodies st f q0) as [Hp _]. destruct (Hp E) as [H1 _].
+      rewrite H1. cbn. apply Qle_refl.
+    + assert (E' : qle f q0 = true) by (rewrite qle_qlt, E; reflexivity).
+      destruct (play_tone_protocol pin neg emitter_melodies st f q0) as [_ Hp]. destruct (Hp E') as [H1 _].
+      rewrite H1. cbn. apply Qle_refl.
+  - cbn. apply Qle_refl.
+  - apply andb_true_iff in H as [Hon Hoff].
+    rewrite (beep_duration_general pin neg emitter_melodies st f on off times Hon Hoff). apply Qle_refl.
+  - destruct (sweep_protocol pin neg emitter_melodies st s e d steps) as (_ & _ & _ & _ & _ & _ & _ & Hd & _).
+    destruct (Hd H) as [_ Hq]. exact Hq.
+  - cbn [dstep]. unfold melody, score in *.
+    destruct (tlookup name emitter_melodies) as [[t0 seq]|] eqn:El; [|cbn; apply Qle_refl].
+    rewrite melody_loop_events. unfold delay_sum. rewrite delays_play_score.
+    apply note_delays_bound.
+    + destruct tables_agree as (_ & _ & _ & Hok). destruct (Hok name t0 seq El) as [Hp _].
+      pose proof (eff_tempo_pos t0 tempo Hp) as He.
+      apply Qlt_le_weak. apply Qlt_shift_div_l; [exact He|]. rewrite Qmult_0_l. reflexivity.
+    + apply (beats_nonneg_lookup _ emitter_beats_nonneg name t0 seq El).
+Qed.
